@@ -14,9 +14,13 @@ LEAN = os.path.join(VERIF, "lean")
 DRIVER = os.path.join(LEAN, ".lake", "build", "bin", "driver")
 STYLEDRIVER = os.path.join(LEAN, ".lake", "build", "bin", "styledriver")
 HARNESS = os.path.join(VERIF, "harness")
-HX = {"release": os.path.join(HARNESS, "target", "release", "hx"),
-      "checked": os.path.join(HARNESS, "target", "checked", "hx")}
-BINDIR = os.path.join(VERIF, ".build", "rawr")
+# build output is kept per source tree: a cargo target directory shared between two source paths can keep serving the binary of the
+# other path (a unit that is "fresh" is not linked into place again)
+_ALT = "" if os.path.realpath(os.environ.get("RAWR_REPO", "/repo")) == "/repo" else "-alt"
+HXTARGET = os.path.join(HARNESS, "target" + _ALT)
+HX = {"release": os.path.join(HXTARGET, "release", "hx"),
+      "checked": os.path.join(HXTARGET, "checked", "hx")}
+BINDIR = os.path.join(VERIF, ".build", "rawr" + _ALT)
 BIN = {"release": os.path.join(BINDIR, "release", "rawr"),
        "checked": os.path.join(BINDIR, "debug", "rawr")}
 ENV = dict(os.environ, CARGO_NET_OFFLINE="true", MIMALLOC_ALLOW_LARGE_OS_PAGES="0")
@@ -54,7 +58,15 @@ def cargo_build_hx():
     new = re.sub(r'rawr = \{ path = "[^"]*" \}', 'rawr = { path = "%s" }' % REPO, src)
     if new != src:
         open(toml, "w").write(new)
-    rc, out = sh(["cargo", "build", "--release", "--offline", "--message-format=json"], cwd=HARNESS)
+    if _ALT:
+        import shutil
+        stamp = os.path.join(HXTARGET, ".source-tree")
+        if not os.path.exists(stamp) or open(stamp).read() != REPO:      # another scratch tree was built here before: start clean
+            shutil.rmtree(HXTARGET, ignore_errors=True)
+            shutil.rmtree(BINDIR, ignore_errors=True)
+            os.makedirs(HXTARGET, exist_ok=True)
+            open(stamp, "w").write(REPO)
+    rc, out = sh(["cargo", "build", "--release", "--offline", "--message-format=json", "--target-dir", HXTARGET], cwd=HARNESS)
     artefact = None
     errs = []
     for line in out.splitlines():
@@ -70,7 +82,7 @@ def cargo_build_hx():
             errs.append(m["message"].get("rendered", ""))
     if rc != 0:
         raise Broken("cargo build (hx release) failed:\n" + "\n".join(errs)[:4000])
-    rc, out = sh(["cargo", "build", "--profile", "checked", "--offline"], cwd=HARNESS)
+    rc, out = sh(["cargo", "build", "--profile", "checked", "--offline", "--target-dir", HXTARGET], cwd=HARNESS)
     if rc != 0:
         raise Broken("cargo build (hx checked) failed:\n" + out[-4000:])
     if artefact is None or not os.path.exists(artefact):
